@@ -71,6 +71,12 @@ pub fn run_case(script: &Script, path: &str, step: usize, fault: Option<Fault>, 
 /// `with_reader`: a read transaction opened on the pre-state right before the target commit stays
 /// open across the failure and the follow-up transactions and must keep showing that state.
 pub fn run_case_r(script: &Script, path: &str, step: usize, fault: Option<Fault>, second: Option<(usize, Fault)>, with_reader: bool) -> CaseOut {
+    run_case_x(script, path, step, fault, second, with_reader, false)
+}
+
+/// `rollback_first`: right after the failed commit a write transaction is begun and abandoned
+/// (and a read-only one is opened and closed) before the follow-up commits.
+pub fn run_case_x(script: &Script, path: &str, step: usize, fault: Option<Fault>, second: Option<(usize, Fault)>, with_reader: bool, rollback_first: bool) -> CaseOut {
     let mut out = CaseOut { kinds: vec![], violations: vec![], outcome: "none" };
     let mut r = match Runner::new(path, script.cfg.clone()) {
         Ok(r) => r,
@@ -143,6 +149,20 @@ pub fn run_case_r(script: &Script, path: &str, step: usize, fault: Option<Fault>
         }
     } else {
         out.outcome = "ok-despite-fault";
+    }
+    if rollback_first {
+        let drop_tx = Action::Tx { ops: vec![OpSpec::bucket("goc", &[], "fu"), OpSpec::put(&["fu"], "abandoned", "w*300"), OpSpec::put(&["fu"], "abandoned2", "x*1500")], commit: false };
+        for mut x in r.step(&drop_tx, &full) {
+            x.class = format!("rollback_after_failure:{}", x.class);
+            out.violations.push(x);
+        }
+        for mut x in r.step(&Action::RoTx { ops: vec![] }, &full) {
+            x.class = format!("reader_after_failure:{}", x.class);
+            out.violations.push(x);
+        }
+        if r.poisoned {
+            return out;
+        }
     }
     // follow-up transactions on the same handle
     for (i, f) in followups().iter().enumerate() {
@@ -273,6 +293,15 @@ pub fn worker(idx: usize) {
                     for v in out.violations {
                         viols.push(json!([ci, k.name(), mname, v.class, v.detail, Value::Null]));
                     }
+                    {
+                        // the same case with an abandoned write transaction right after the failure
+                        cases += 1;
+                        let outx = run_case_x(sc, &path2, step, Some(f), None, false, true);
+                        *outcomes.entry(format!("{}:{}+rollback", k.name(), outx.outcome)).or_insert(0) += 1;
+                        for v in outx.violations {
+                            viols.push(json!([ci, k.name(), mname, format!("with_rollback:{}", v.class), format!("(a write transaction is abandoned right after the failed commit) {}", v.detail), "rollback"]));
+                        }
+                    }
                     if sc.cfg.num_pages >= 64 {
                         // the same case with a reader that was opened before the failing commit
                         cases += 1;
@@ -371,7 +400,7 @@ pub fn run(check: &mut Check) {
     found.sort_by(|a, b| (a.0, a.1, a.2, &a.4).cmp(&(b.0, b.1, b.2, &b.4)));
     for (si, step, call, kind, mode, class, detail, second) in found {
         let sc = &scs[si];
-        check.violation(&class, &format!("[script {} commit at step {}: call #{} ({}) fails with {}{}] {}", sc.name, step, call, kind, mode, if second.is_null() || second.as_str() == Some("reader") { String::new() } else { format!(", second fault EIO at call #{} of follow-up 2", second) }, detail), || {
+        check.violation(&class, &format!("[script {} commit at step {}: call #{} ({}) fails with {}{}] {}", sc.name, step, call, kind, mode, if second.is_null() || second.as_str().is_some() { String::new() } else { format!(", second fault EIO at call #{} of follow-up 2", second) }, detail), || {
             json!({"engine": "faultx", "tier": tier.name(), "script": sc.name, "script_index": si, "step": step, "call": call, "kind": kind, "mode": mode, "second": second, "actions": sc.actions.iter().map(|a| a.to_json()).collect::<Vec<_>>()})
         });
     }
@@ -399,6 +428,7 @@ pub fn replay(v: &Value) -> i32 {
     let mode_name = v["mode"].as_str().unwrap_or("EIO").to_string();
     let second = v["second"].as_u64();
     let with_reader = v["second"].as_str() == Some("reader");
+    let rollback_first = v["second"].as_str() == Some("rollback");
     let r = crate::fresh::on_fresh_thread(move || {
         let scs = scripts(tier);
         let sc = &scs[si];
@@ -413,7 +443,7 @@ pub fn replay(v: &Value) -> i32 {
             }
         };
         let f = Fault { call_index: call, mode };
-        let out = run_case_r(sc, &path, step, Some(f), second.map(|cj| (1usize, Fault { call_index: cj, mode: FaultMode::Errno(libc::EIO) })), with_reader);
+        let out = run_case_x(sc, &path, step, Some(f), second.map(|cj| (1usize, Fault { call_index: cj, mode: FaultMode::Errno(libc::EIO) })), with_reader, rollback_first);
         println!("outcome of the failed commit: {}", out.outcome);
         for x in &out.violations {
             println!("   !! {}: {}", x.class, x.detail);
